@@ -174,6 +174,10 @@ type relayRig struct {
 	transparent bool
 	keepalive0  bool
 	faults      bool
+	mode        string // C04 | C17 (a limits directive in front of the proxy)
+	limit       int    // C17: body limit on /api
+	hosts       int    // upstream hosts (2 = retries enabled: the body is buffered first)
+	deadFirst   bool   // the first of two hosts refuses connections: every request is retried at the second
 
 	port       int
 	started    bool
@@ -223,6 +227,10 @@ func setupRelayProxy(c *casket.Controller) error {
 			tr.Dial = func(network, addr string) (net.Conn, error) {
 				if rig.cleanup {
 					return nil, fmt.Errorf("sim: backend gone")
+				}
+				if rig.deadFirst && strings.HasPrefix(addr, "10.7.0.1:") {
+					rig.c.Fault("backend-connection-refused")
+					return nil, sim.ErrRefused
 				}
 				conn := rig.w.N.NewPeerConn("proxy-transport", net.IPv4(10, 7, 0, 1), 80)
 				p := &bpeer{rig: rig, end: conn.Srv}
@@ -331,6 +339,41 @@ func (p *bpeer) onData() {
 	}
 }
 
+// bodyBytesSeen: how many body bytes of request id sit in the peer's receive
+// buffer as part of a request that never became complete (0 if the buffer
+// holds something else). A chunked body is counted with its framing removed
+// as far as it parses.
+func (p *bpeer) bodyBytesSeen(id int) int {
+	i := bytes.Index(p.buf, []byte("\r\n\r\n"))
+	if i < 0 || !bytes.Contains(p.buf[:i], []byte(fmt.Sprintf("X-Req: %d\r\n", id))) {
+		return 0
+	}
+	rest := p.buf[i+4:]
+	if !bytes.Contains(bytes.ToLower(p.buf[:i]), []byte("transfer-encoding: chunked")) {
+		return len(rest)
+	}
+	n := 0
+	for len(rest) > 0 {
+		j := bytes.Index(rest, []byte("\r\n"))
+		if j < 0 {
+			break
+		}
+		var sz int
+		if _, err := fmt.Sscanf(string(rest[:j]), "%x", &sz); err != nil || sz == 0 {
+			break
+		}
+		rest = rest[j+2:]
+		if len(rest) < sz {
+			n += len(rest)
+			break
+		}
+		n += sz
+		rest = rest[sz:]
+		rest = bytes.TrimPrefix(rest, []byte("\r\n"))
+	}
+	return n
+}
+
 func (p *bpeer) prepare(rq *rreq) {
 	sc := rq.script
 	var b bytes.Buffer
@@ -399,8 +442,14 @@ func (p *bpeer) prepare(rq *rreq) {
 	p.out = cutBytes(p.rig.c.T.Stream(fmt.Sprintf("bresp%d", rq.id)), all, sc.pieces)
 }
 
-func runRelay(c *sim.Ctl) {
-	r := &relayRig{c: c, st: c.T.Stream("struct"), finish: make(chan struct{})}
+func runRelay(c *sim.Ctl) { runRelayMode("C04")(c) }
+
+func runRelayMode(mode string) sim.RigFunc {
+	return func(c *sim.Ctl) { runRelayIn(c, mode) }
+}
+
+func runRelayIn(c *sim.Ctl, mode string) {
+	r := &relayRig{c: c, st: c.T.Stream("struct"), finish: make(chan struct{}), mode: mode, hosts: 1}
 	relayCur = r
 	defer func() { relayCur = nil }()
 	r.w = NewWorld(c)
@@ -416,6 +465,18 @@ func runRelay(c *sim.Ctl) {
 	r.transparent = pick(30)
 	r.keepalive0 = pick(40)
 	r.faults = pick(35)
+	if mode == "C17" {
+		r.limit = []int{1, 10, 100, 4096, 65536}[st.Draw(5)]
+		r.faults = false
+	}
+	if pick(30) || (mode == "C17" && pick(30)) {
+		// two upstream hosts and retries: the proxy buffers the request body before the first attempt
+		r.hosts = 2
+		r.deadFirst = pick(60)
+		// (scripted backend faults mark hosts down for fail_timeout; with both hosts down
+		// innocent requests are legitimately refused, so the two fault families stay apart)
+		r.faults = false
+	}
 	if pick(60) {
 		r.upRules = append(r.upRules, [2]string{"X-Up-Added", "up-value"})
 	}
@@ -442,7 +503,15 @@ func runRelay(c *sim.Ctl) {
 		}
 	}
 	var b strings.Builder
-	fmt.Fprintf(&b, "http://r.test:0 {\n\tbind 127.0.0.1\n\tsimnet v0\n\tsimrelay /api http://10.7.0.1:80%s {\n", r.base)
+	b.WriteString("http://r.test:0 {\n\tbind 127.0.0.1\n\tsimnet v0\n")
+	if r.limit > 0 {
+		fmt.Fprintf(&b, "\tlimits {\n\t\tbody /api %d\n\t}\n", r.limit)
+	}
+	if r.hosts == 2 {
+		fmt.Fprintf(&b, "\tsimrelay /api http://10.7.0.1:80%s http://10.7.0.2:80%s {\n\t\tpolicy first\n\t\ttry_duration 2s\n\t\ttry_interval 7ms\n\t\tfail_timeout 10s\n", r.base, r.base)
+	} else {
+		fmt.Fprintf(&b, "\tsimrelay /api http://10.7.0.1:80%s {\n", r.base)
+	}
 	if r.without != "" {
 		fmt.Fprintf(&b, "\t\twithout %s\n", r.without)
 	}
@@ -464,7 +533,7 @@ func runRelay(c *sim.Ctl) {
 	}
 	b.WriteString("\t}\n}\n")
 	text := b.String()
-	c.Params["block"] = fmt.Sprintf("base=%q without=%q transparent=%v keepalive0=%v up=%v down=%v faults=%v", r.base, r.without, r.transparent, r.keepalive0, r.upRules, r.downRules, r.faults)
+	c.Params["block"] = fmt.Sprintf("base=%q without=%q transparent=%v keepalive0=%v up=%v down=%v faults=%v hosts=%d dead-first=%v limit=%d", r.base, r.without, r.transparent, r.keepalive0, r.upRules, r.downRules, r.faults, r.hosts, r.deadFirst, r.limit)
 
 	n := 1 + st.Draw(4)
 	for i := 0; i < n; i++ {
@@ -514,6 +583,10 @@ func runRelay(c *sim.Ctl) {
 	}
 	c.Settle(300)
 	r.judge()
+	if r.hosts == 2 {
+		// let the failure marks of refused connections expire (each is a sleeping goroutine)
+		c.Advance(11 * time.Second)
+	}
 	close(r.finish)
 	if !c.Drain(300, time.Second, func() bool { return r.opDone }) {
 		r.cleanup = true
@@ -526,6 +599,9 @@ func (r *relayRig) addReq(i int) {
 	pick := func(p int) bool { return st.Draw(100) < p }
 	q := &rreq{id: i}
 	q.method = []string{"GET", "POST", "POST", "PUT", "DELETE", "PATCH", "HEAD"}[st.Draw(7)]
+	if r.mode == "C17" && q.method != "PUT" && q.method != "PATCH" {
+		q.method = "POST"
+	}
 	q.path = "/api" + []string{"", "/", "/x", "/x/y.json", "/a%2Fb/c%20d", "/%7Euser/file", "/x//y", "/caf%C3%A9"}[st.Draw(8)]
 	q.query = []string{"", "a=1", "a=1&b=%20x&c", "q=%2F%3F", "x=1;y=2"}[st.Draw(5)]
 	q.srcIP = fmt.Sprintf("10.1.0.%d", 1+st.Draw(5))
@@ -568,6 +644,9 @@ func (r *relayRig) addReq(i int) {
 	}
 	if q.method == "POST" || q.method == "PUT" || q.method == "PATCH" {
 		bl := []int{0, 1, 4095, 4096, 4097, 32767, 32768, 32769, 65536}[st.Draw(9)]
+		if r.limit > 0 {
+			bl = []int{0, r.limit - 1, r.limit, r.limit + 1, r.limit + 1000, r.limit * 3, r.limit + 70000}[st.Draw(7)]
+		}
 		q.body = make([]byte, bl)
 		for k := range q.body {
 			q.body[k] = byte('A' + (k*5+i)%26)
@@ -738,6 +817,32 @@ func (r *relayRig) judge() {
 	for _, q := range r.reqs {
 		sc := q.script
 		faulty := sc.fault != "" || q.aborted
+		if r.limit > 0 && len(q.body) > r.limit {
+			// ---- C17: a body beyond the limit of its scope, proxied ----
+			sig := fmt.Sprintf("chunked=%v/hosts=%d", q.chunked, r.hosts)
+			if g := q.got; g != nil && len(g.body) > r.limit {
+				c.Violate("C17/backend-received-beyond-limit", sig, "request %d (%s, body %d bytes, limit %d): the backend received %d body bytes", q.id, q.method, len(q.body), r.limit, len(g.body))
+			}
+			for _, p := range r.peers {
+				if n := p.bodyBytesSeen(q.id); n > r.limit {
+					c.Violate("C17/backend-received-beyond-limit", sig+"/partial", "request %d (%s, body %d bytes, limit %d): %d body bytes were put on the connection to the backend", q.id, q.method, len(q.body), r.limit, n)
+				}
+			}
+			if q.aborted || !q.cl.done {
+				continue
+			}
+			fin := q.cl.finals()
+			if len(fin) != 1 {
+				c.Violate("C17/proxied-too-large-status", sig+"/no-response", "request %d (%s, body %d bytes, limit %d): %d responses, framing error %v", q.id, q.method, len(q.body), r.limit, len(fin), q.cl.perr)
+			} else if fin[0].Status != 413 {
+				c.Violate("C17/proxied-too-large-status", sig, "request %d (%s, body %d bytes, chunked=%v, limit %d, %d upstream hosts): the client got %d, want 413", q.id, q.method, len(q.body), q.chunked, r.limit, r.hosts, fin[0].Status)
+			}
+			c.Probe("proxied-over-limit-body-judged")
+			continue
+		}
+		if r.limit > 0 && len(q.body) > 0 {
+			c.Probe("proxied-body-within-limit-judged")
+		}
 		// ---- what the backend received ----
 		if g := q.got; g != nil {
 			c.Probe("request-reached-backend")
@@ -818,7 +923,7 @@ func (r *relayRig) judge() {
 					}
 				}
 				c.Probe("transparent-checked")
-			} else if v := strings.Join(got["Host"], "|"); v != "10.7.0.1:80" && v != "10.7.0.1" {
+			} else if v := strings.Join(got["Host"], "|"); v != "10.7.0.1:80" && v != "10.7.0.1" && !(r.hosts == 2 && (v == "10.7.0.2:80" || v == "10.7.0.2")) {
 				c.Violate("C04/host-header", "", "request %d: backend received Host %q, want the upstream's address", q.id, v)
 			}
 			// anything else the backend saw must be explainable
